@@ -6,6 +6,8 @@ from concurrent.futures import ThreadPoolExecutor
 V = os.path.dirname(os.path.dirname(os.path.abspath(__file__)))
 REPO = os.environ.get('BASE', '/repo')
 ALL = ['C%02d' % i for i in range(1, 21)]
+if os.environ.get('PROPS'):   # restrict the refactor runs to some properties (after a change local to them)
+    ALL = os.environ['PROPS'].split(',')
 args = [a for a in sys.argv[1:] if not a.startswith('-')]
 filt = sys.argv[sys.argv.index('-k') + 1] if '-k' in sys.argv else ''
 if filt in args:
